@@ -435,6 +435,42 @@ def run_cem(case):
                 res.violation("C16/cem/mean_out_of_bounds", "optimize_cem returned "
                               "a mean outside the bounds")
             res.see("optimize_cem_runs")
+    # the optimiser loop: every recorded mean follows from the n_elite best
+    # samples of its iteration (n_elite = 1, 2 and the whole population)
+    if len(shape) == 1 and case["seed"] % 2:
+        P = shape[0]
+        n_pop2 = int(rng.integers(4, 12))
+        ne = int(rng.choice([1, 1, 2, n_pop2]))
+        alpha2 = 0.25
+        tgt = jnp.asarray(lb32 + rng.random(P).astype(np.float32) * (ub32 - lb32))
+        f2 = lambda x: -jnp.sum((x - tgt) ** 2, axis=-1)  # noqa: E731
+        m0 = np.clip((lb32 + ub32) / 2, lb32, ub32).astype(np.float32)
+        v0 = (((ub32 - lb32) / 2) ** 2).astype(np.float32)
+        ok, out = guarded(res, "C16/raises/optimize_cem", cem.optimize_cem, f2,
+                          jnp.asarray(m0), jnp.asarray(v0), key, 4, n_pop2, ne,
+                          jnp.asarray(lb32), jnp.asarray(ub32), 0.0, alpha2, True)
+        if not ok:
+            return res
+        _, path, hist = out
+        path = np.asarray(path, np.float64).reshape(-1, P)
+        hist = np.asarray(hist, np.float64).reshape(len(path), n_pop2, P)
+        prev = m0.astype(np.float64)
+        for t in range(len(path)):
+            fit = np.asarray(f2(jnp.asarray(hist[t], jnp.float32)), np.float64)
+            order = np.argsort(-fit, kind="stable")
+            clear = ne == n_pop2 or fit[order[ne - 1]] - fit[order[ne]] > \
+                1e-5 * (1 + abs(fit[order[ne]]))
+            want = alpha2 * prev + (1 - alpha2) * hist[t][order[:ne]].mean(0)
+            scale = np.maximum(np.abs(lb32), np.abs(ub32)).astype(np.float64)
+            if clear and np.any(np.abs(path[t] - want) > 1e-5 * scale + 1e-6):
+                res.violation(
+                    "C16/cem/optimizer_not_from_elites",
+                    f"optimize_cem (population {n_pop2}, n_elite {ne}): the mean "
+                    f"after iteration {t} is not alpha * old + (1 - alpha) * mean "
+                    f"of the {ne} best samples", {"got": path[t], "want": want})
+                return res
+            prev = path[t]
+            res.see("optimizer_iterations_checked")
     res.nontrivial = bool(on_boundary or (tie and len(maybe) > need > 0))
     res.state(("cem", len(shape), on_boundary, tie))
     return res
